@@ -625,4 +625,27 @@ def offsetsReport (h : Hdr) (info : Info) : Nat × Nat × List (Nat × Nat) :=
   (info.xsz, if h.vars.length = 0 then info.xsz else info.beginVar,
    (h.vars.zip info.shapes).map (fun (v, sh) => (v.begin, v.begin + dsizes0 sh * v.xtype.size)))
 
+/-! ## 4. ncmpidiff on several processes: which part of a variable each rank compares -/
+
+/-- ncmpidiff.c main(), "calculate read amount of this process": the block of rank `r` along the partitioned
+    dimension of length `L` (start, count): `shape = L / nprocs; start = shape * rank;
+    if (rank < L % nprocs) { start += rank; shape++; } else start += L % nprocs;` -/
+def rankBlock (L nprocs r : Nat) : Nat × Nat :=
+  if r < L % nprocs then (L / nprocs * r + r, L / nprocs + 1) else (L / nprocs * r + L % nprocs, L / nprocs)
+
+/-- start[] / shape[] of rank `r` for a variable of shape `shape`: the first dimension that is at least `nprocs`
+    long is partitioned (`break`), the others are taken whole; no such dimension: every rank compares everything -/
+def rankBox (nprocs r : Nat) : List Nat → List (Nat × Nat)
+  | [] => []
+  | s :: rest => if s ≥ nprocs then rankBlock s nprocs r :: rest.map (fun x => (0, x)) else (0, s) :: rankBox nprocs r rest
+
+/-- a multi-index lies in a box of (start, count) pairs -/
+def inBox : List Nat → List (Nat × Nat) → Bool
+  | [], [] => true
+  | i :: is, (st, ct) :: bs => decide (st ≤ i) && decide (i < st + ct) && inBox is bs
+  | _, _ => false
+
+/-- a multi-index of a variable of that shape -/
+def inShape (idx shape : List Nat) : Bool := inBox idx (shape.map (fun x => (0, x)))
+
 end PnVerif.Tools
